@@ -202,6 +202,8 @@ class FuncContract:
         self.ensures_body = []  # checked when the body is verified, never assumed by callers (may name locals)
         self.grequires = []     # tier-G view of the function, used by callers verified in group mode
         self.gensures = []
+        self.srequires = []     # tier "Z/l" view of a Scalar method, used by callers verified in ring mode mod l
+        self.sensures = []
         self.assigns = None  # list of ast, or None (= nothing may be assigned: pure)
         self.loops = {}      # K -> dict(invariant=[(label,ast,text)], modifies=[ast], decreases=ast, var=name)
         self.other = []      # (kind, text)
@@ -342,6 +344,12 @@ def parse_file(path, pkg, C):
                 elif kw == "gensures":
                     lab, e = split_label(rest)
                     fc.gensures.append((lab, parse_expr(e), e))
+                elif kw == "srequires":
+                    lab, e = split_label(rest)
+                    fc.srequires.append((lab, parse_expr(e), e))
+                elif kw == "sensures":
+                    lab, e = split_label(rest)
+                    fc.sensures.append((lab, parse_expr(e), e))
                 elif kw == "ensuresbody":
                     lab, e = split_label(rest)
                     fc.ensures_body.append((lab, parse_expr(e), e))
